@@ -53,6 +53,18 @@ const ERROR: &str = "[Error]";
 static GENERATED_PATHS: LazyLock<Mutex<HashSet<PathBuf>>> =
     LazyLock::new(|| Mutex::new(HashSet::new()));
 
+/// Removes the output file when dropped, unless disarmed (by setting the path to `None`): this
+/// also runs when a build unwinds from a panic.
+struct RemoveOutputOnFailure<'a>(Option<&'a Path>);
+
+impl Drop for RemoveOutputOnFailure<'_> {
+    fn drop(&mut self) {
+        if let Some(p) = self.0 {
+            fs::remove_file(p).ok();
+        }
+    }
+}
+
 struct CTConflictsError<StorageT: Eq + Hash> {
     conflicts_diagnostic: String,
     #[cfg(test)]
@@ -670,11 +682,15 @@ where
             }
             lk.insert(outp.clone());
         }
-        // If the build fails for any reason, a file generated by an earlier (successful) build
-        // from different input must not be left behind.
-        self.build_inner().inspect_err(|_| {
-            fs::remove_file(&outp).ok();
-        })
+        // If the build fails for any reason -- an error or a panic (e.g. a `StorageT` that is too
+        // small) -- a file generated by an earlier (successful) build from different input must
+        // not be left behind.
+        let mut guard = RemoveOutputOnFailure(Some(&outp));
+        let r = self.build_inner();
+        if r.is_ok() {
+            guard.0 = None;
+        }
+        r
     }
 
     fn build_inner(mut self) -> Result<CTParser<StorageT>, Box<dyn Error>> {
